@@ -196,6 +196,9 @@ func vfSame(c vfCase, got align.Alignment, err error) {
 	}
 	verifAssert(got.Alphabet() == c.al.Alphabet(), "same detected alphabet")
 	// cross-check: the alphabet set by construction is the one goalign detects on the original
+	if c.mode < 0 {
+		return
+	}
 	c.al.AutoAlphabet()
 	if c.mode == vfNt {
 		verifAssert(c.al.Alphabet() == align.NUCLEOTIDS, "harness: nucleotide mode is detected as nucleotides")
@@ -218,9 +221,6 @@ func vfChoose(shapes []vfShape, cased, full bool) (n, L, mode, rot, cs int) {
 	sh := shapes[nondetRange(0, len(shapes)-1)]
 	n, L = sh.n, sh.L
 	rot = (n + L) % len(vfPool)
-	if full {
-		rot = nondetRange(0, len(vfPool)-1)
-	}
 	if L <= 11 || full {
 		mode = nondetRange(vfNt, vfAa)
 		if cased {
@@ -235,11 +235,22 @@ func vfChoose(shapes []vfShape, cased, full bool) (n, L, mode, rot, cs int) {
 	return
 }
 
-// vfGrid: all shapes n in 1..maxn x L in Ls.
-func vfGrid(maxn int, Ls []int) []vfShape {
+// vfThorough: shapes of the thorough tier: every length of Ls with 1..3 rows up to 61 columns,
+// 1..2 rows up to 81 columns, one row beyond (the cost of a case grows with (n*L)^2); rows from minn.
+func vfThorough(minn int, Ls []int) []vfShape {
 	var out []vfShape
-	for n := 1; n <= maxn; n++ {
-		for _, L := range Ls {
+	for _, L := range Ls {
+		maxn := 3
+		if L > 61 {
+			maxn = 2
+		}
+		if L > 81 {
+			maxn = 1
+		}
+		if maxn < minn {
+			maxn = minn
+		}
+		for n := minn; n <= maxn; n++ {
 			out = append(out, vfShape{n, L})
 		}
 	}
@@ -262,9 +273,11 @@ func vfFasta(shapes []vfShape, syms, full bool) {
 }
 
 // H_C02_fasta: FASTA writer -> parser is the identity (letters only; lines wrap at 80).
-// bounds: shapes n x L in {1x1, 2x1, 2x2, 1x80, 1x81, 2x81}; residues = any letter of the nucleotide family or of the protein family (see package comment) in either case at every position; short shapes in both families, long ones in one; names from the pool {s1,12,Seq_B,Name.10chr}
+// bounds: shapes n x L in {1x1, 2x1, 2x2, 1x79, 1x80, 2x80, 1x81, 2x81}; residues = any letter of the nucleotide family or of the protein family (see package comment) in either case at every position; short shapes (L <= 11) in both families, long ones in one family with, for nucleotides, residue (0,0) = U or O; names from the pool {s1,12,Seq_B,Name.10chr}
 // outside: other lengths (thorough twin), symbols - * ? (H_C02_fasta_syms), names outside the pool (H_C02_names_*), alignments mixing nucleotide-only and protein-only letters (no well-defined alphabet)
-func H_C02_fasta() { vfFasta([]vfShape{{1, 1}, {2, 1}, {2, 2}, {1, 80}, {1, 81}, {2, 81}}, false, false) }
+func H_C02_fasta() {
+	vfFasta([]vfShape{{1, 1}, {2, 1}, {2, 2}, {1, 79}, {1, 80}, {2, 80}, {1, 81}, {2, 81}}, false, false)
+}
 
 // H_C02_fasta_syms: same with the symbols - * ? allowed at every position.
 // bounds: shapes {1x1, 2x2, 1x81}; residues = letters of the family or - * ?
@@ -272,11 +285,11 @@ func H_C02_fasta() { vfFasta([]vfShape{{1, 1}, {2, 1}, {2, 2}, {1, 80}, {1, 81},
 func H_C02_fasta_syms() { vfFasta([]vfShape{{1, 1}, {2, 2}, {1, 81}}, true, false) }
 
 // H_C02_fasta_thorough: full length list and three rows.
-// bounds: n in 1..3, L in {1,2,3,9,10,11,49,50,51,59,60,61,79,80,81,119,120,121,160,161}, letters and symbols, both families, 4 name rotations
+// bounds: L in {1,2,3,9,10,11,49,50,51,59,60,61,79,80,81,119,120,121,160,161} with n in 1..3 (L<=61), 1..2 (L<=81), 1 (beyond); letters and symbols; both families
 // outside: L > 161, n > 3
 //verif: tier=thorough
 func H_C02_fasta_thorough() {
-	vfFasta(vfGrid(3, append(append([]int{}, vfFullL...), 160, 161)), true, true)
+	vfFasta(vfThorough(1, append(append([]int{}, vfFullL...), 160, 161)), true, true)
 }
 
 // ------------------------------------------------------------------ Phylip
@@ -287,17 +300,19 @@ func vfPhylip(shapes []vfShape, syms, full bool, opts []int) {
 	n, L, mode, rot, _ := vfChoose(shapes, false, full)
 	opt := vfPick(opts)
 	strict, oneline, noblock := opt&1 != 0, opt&2 != 0, opt&4 != 0
-	c := vfBuildPin(n, L, mode, syms, rot, csMixed, L > 11 && !full)
+	// every block of 10 that starts with '-' forks in the lexer (strconv.ParseInt's sign path):
+	// symbols only in short rows
+	c := vfBuildPin(n, L, mode, syms && L <= 11, rot, csMixed, L > 11 && !full)
 	w := phylip.WriteAlignment(c.al, strict, oneline, noblock)
 	got, err := phylip.NewParser(vfReader(w), strict).Parse()
 	verifReach("phylip round trip")
 	vfSame(c, got, err)
 }
 
-var vfPhylipShapes = []vfShape{{1, 1}, {2, 1}, {2, 10}, {2, 11}, {1, 60}, {1, 61}, {2, 61}}
+var vfPhylipShapes = []vfShape{{1, 1}, {2, 1}, {2, 10}, {2, 11}, {1, 60}, {2, 60}, {1, 61}, {2, 61}}
 
 // H_C02_phylip_relaxed: relaxed Phylip (name, two blanks, sequence), the 4 oneline/noblock combinations.
-// bounds: shapes {1x1, 2x1, 2x10, 2x11, 1x60, 1x61, 2x61} (blocks of 10, lines of 60); letters of either family in either case; writer options strict=false x oneline x noblock, parser strict=false
+// bounds: shapes {1x1, 2x1, 2x10, 2x11, 1x60, 2x60, 1x61, 2x61} (blocks of 10, lines of 60); letters of either family in either case; writer options strict=false x oneline x noblock, parser strict=false
 // outside: other lengths (thorough twin), symbols (H_C02_phylip_syms), names with blanks (not representable)
 func H_C02_phylip_relaxed() { vfPhylip(vfPhylipShapes, false, false, []int{0, 2, 4, 6}) }
 
@@ -314,10 +329,10 @@ func H_C02_phylip_syms() {
 }
 
 // H_C02_phylip_thorough: full length list, three rows, all 8 option combinations.
-// bounds: n in 1..3, L in the full list {1,2,3,9,10,11,49,50,51,59,60,61,79,80,81,119,120,121}, letters and symbols, both families, 4 name rotations, 8 option combinations
+// bounds: L in the full list {1,2,3,9,10,11,49,50,51,59,60,61,79,80,81,119,120,121} with n in 1..3 (L<=61), 1..2 (L<=81), 1 (beyond); letters, and symbols for L<=11; both families; 8 option combinations
 // outside: L > 121
 //verif: tier=thorough
-func H_C02_phylip_thorough() { vfPhylip(vfGrid(3, vfFullL), true, true, []int{0, 1, 2, 3, 4, 5, 6, 7}) }
+func H_C02_phylip_thorough() { vfPhylip(vfThorough(1, vfFullL), true, true, []int{0, 1, 2, 3, 4, 5, 6, 7}) }
 
 var vfStreamShapes = []vfShape{{1, 2}, {1, 61}, {2, 11}}
 
@@ -421,14 +436,14 @@ func H_C02_nexus_syms() { vfNexus([]vfShape{{1, 1}, {2, 2}, {1, 3}}, true, false
 var vfNexusThoroughL = []int{1, 2, 3, 4, 5, 6, 7, 8, 9, 10, 11, 60, 61, 121}
 
 // H_C02_nexus_thorough: every length 1..11 (all keyword lengths) and long rows, three rows.
-// bounds: n in 1..3, L in {1..11, 60, 61, 121}, letters (row-uniform case) and symbols, both families, 4 name rotations
+// bounds: L in {1..11, 60, 61} with n in 1..3, 121 with n = 1; letters (row-uniform case) and symbols; both families
 //verif: tier=thorough
-func H_C02_nexus_thorough() { vfNexus(vfGrid(3, vfNexusThoroughL), true, true, false, false) }
+func H_C02_nexus_thorough() { vfNexus(vfThorough(1, vfNexusThoroughL), true, true, false, false) }
 
 // H_C02_nexus_nokw_thorough: thorough twin of H_C02_nexus_nokw.
 // bounds: as H_C02_nexus_thorough, keyword rows excluded
 //verif: tier=thorough
-func H_C02_nexus_nokw_thorough() { vfNexus(vfGrid(3, vfNexusThoroughL), true, true, false, true) }
+func H_C02_nexus_nokw_thorough() { vfNexus(vfThorough(1, vfNexusThoroughL), true, true, false, true) }
 
 // ------------------------------------------------------------------ Clustal
 
@@ -494,14 +509,18 @@ func H_C02_clustal_syms() {
 // H_C02_clustal_thorough: full length list, one row.
 // bounds: n = 1, L in the full list, both families, row-uniform case, symbols
 //verif: tier=thorough
-func H_C02_clustal_thorough() { vfClustal(vfGrid(1, vfFullL), true, true, false, []int{vfNt, vfAa}) }
+func H_C02_clustal_thorough() {
+	var shapes []vfShape
+	for _, L := range vfFullL {
+		shapes = append(shapes, vfShape{1, L})
+	}
+	vfClustal(shapes, true, true, false, []int{vfNt, vfAa})
+}
 
 // H_C02_clustal_rows_thorough: full length list, 2..3 rows of nucleotides in alternating case.
-// bounds: n in 2..3, L in the full list, nucleotide family, rows alternate upper/lower case
+// bounds: L in the full list with n in 2..3 (L<=61), n = 2 beyond; nucleotide family, rows alternate upper/lower case
 //verif: tier=thorough
-func H_C02_clustal_rows_thorough() {
-	vfClustal(vfGrid(3, vfFullL)[len(vfFullL):], false, true, false, []int{vfNt})
-}
+func H_C02_clustal_rows_thorough() { vfClustal(vfThorough(2, vfFullL), false, true, false, []int{vfNt}) }
 
 // ------------------------------------------------------------------ Stockholm
 
@@ -525,9 +544,9 @@ func H_C02_stockholm() { vfStockholm([]vfShape{{1, 1}, {2, 2}, {2, 9}, {1, 61}},
 func H_C02_stockholm_syms() { vfStockholm([]vfShape{{1, 1}, {2, 2}, {1, 3}}, true, false, true) }
 
 // H_C02_stockholm_thorough: full length list, three rows.
-// bounds: n in 1..3, L in the full list, letters (row-uniform case) and symbols, both families, 4 name rotations
+// bounds: L in the full list with n in 1..3 (L<=61), 1..2 (L<=81), 1 (beyond); letters (row-uniform case) and symbols; both families
 //verif: tier=thorough
-func H_C02_stockholm_thorough() { vfStockholm(vfGrid(3, vfFullL), true, true, false) }
+func H_C02_stockholm_thorough() { vfStockholm(vfThorough(1, vfFullL), true, true, false) }
 
 // ------------------------------------------------------------------ auto-detection
 
@@ -695,7 +714,43 @@ func H_C02_nexus_kwname() {
 
 func vfPick2(list []string) string { return list[nondetRange(0, len(list)-1)] }
 
-// H_C02_dbg: scratch.
-// bounds: scratch
-// outside: scratch
-func H_C02_dbg() { vfClustal([]vfShape{{1, 21}}, false, false, false, []int{vfNt, vfAa}) }
+// H_C02_lexer_words: a row of arbitrary letters whose length is that of the start keyword of the format
+// (CLUSTAL: 7 letters, STOCKHOLM: 9 letters) survives the round trip. Such rows mix nucleotide-only and
+// protein-only letters (U/O with L), so goalign's detected alphabet is "unknown" on both sides.
+// bounds: format in {clustal with L=7, stockholm with L=9}; one row; residues = any ASCII letter, the row in one case (upper or lower)
+// outside: everything else (covered by the per-format harnesses)
+func H_C02_lexer_words() {
+	f := nondetRange(0, 1)
+	cs := nondetRange(csUpper, csLower)
+	L := 7
+	if f == 1 {
+		L = 9
+	}
+	al := align.NewAlign(align.UNKNOWN)
+	s := make([]uint8, L)
+	for j := range s {
+		c := nondetByte()
+		if cs == csUpper {
+			assume(c >= 'A' && c <= 'Z')
+		} else {
+			assume(c >= 'a' && c <= 'z')
+		}
+		s[j] = c
+	}
+	orig := make([]uint8, L)
+	copy(orig, s)
+	if err := al.AddSequenceChar("s1", s, ""); err != nil {
+		panic("harness: cannot build alignment: " + err.Error())
+	}
+	al.AutoAlphabet()
+	c := vfCase{al: al, names: []string{"s1"}, orig: [][]uint8{orig}, L: L, mode: -1}
+	var got align.Alignment
+	var err error
+	if f == 0 {
+		got, err = clustal.NewParser(vfReader(clustal.WriteAlignment(al))).Parse()
+	} else {
+		got, err = stockholm.NewParser(vfReader(stockholm.WriteAlignment(al))).Parse()
+	}
+	verifReach("lexer words round trip")
+	vfSame(c, got, err)
+}
